@@ -5,7 +5,7 @@ import vlib
 
 MOD = "c19_conc/ConcMC"
 ACC, ACC_CFG = "c19_conc/ConcTrace", "c19_conc/ConcTrace.cfg"
-KINDS = ["search", "canon", "iter", "builder", "dawgread", "graphread", "cliques", "comb", "sets"]
+KINDS = ["search", "canon", "iter", "builder", "dawgread", "graphread", "cliques", "comb", "sets", "codec"]
 
 
 def one_kind(ctx, kind, gen, infile=None):
@@ -30,7 +30,7 @@ def run(ctx):
     ctx.tlc(MOD, "c19_conc/Conc_witness.cfg", workers=1, allow=(12,))
     ctx.build(race=True)
     races, traces, segments, gated = [], [], 0, 0
-    with cf.ThreadPoolExecutor(max_workers=9) as ex:
+    with cf.ThreadPoolExecutor(max_workers=10) as ex:
         for kind, out, meta in ex.map(lambda k: one_kind(ctx, k, gen), KINDS):
             if meta.get("race"):
                 races.append((kind, meta["report"]))
@@ -53,7 +53,7 @@ def run(ctx):
              "free (4x3 and 8x2 goroutines, %d repetitions), all under the Go race detector (-race, halt on the first report). Workloads: shards of "
              "All(7,a,m); canonical labelling with own reused storage; six kinds of itertools iterators; own dawg.Builder; Lookup/Search with own "
              "searchers on one shared Dawg; observers and invariants on shared dense and sparse graphs; AllMaximalCliques producers on one shared graph; "
-             "comb tables; own SortedInts/disjoint sets. ConcTrace.tla replays each schedule and requires every section digest to equal the digest of "
+             "comb tables; own SortedInts/disjoint sets with a shared read-only operand; encoders and decoders on own graphs. ConcTrace.tla replays each schedule and requires every section digest to equal the digest of "
              "the same section executed alone. Non-trivial = gated runs with at least one context switch."
              % (60 if big else 8, 40 if big else 5),
         samples=["conc[search](sched=[1 2 3 1 2 3 1 2 3])", "conc[dawgread](free,procs=8,steps=2)"],
